@@ -26,6 +26,9 @@
 (* Source = "enum"    every hierarchy with bases[i] a repetition-free      *)
 (*                    sequence over 1..i-1 (input builder AddClass)        *)
 (*          "members" the same, then every placement of the member         *)
+(*          "late"    the same with one class per module and the modules     *)
+(*                    analysed in every order: bases resolved only in the  *)
+(*                    second pass, early lookups before they are known     *)
 (*          "graph"   every base graph over MaxN classes incl. cycles (one  *)
 (*                    class per module, plain `import`): conformance of the*)
 (*                    cycle fallback; Python rejects these programs        *)
@@ -151,21 +154,37 @@ PdDocOwner(c) == LET s == SelectSeq(PdSources(c), HasDoc) IN
     IF Len(s) = 0 THEN 0 ELSE IF member[s[1]] = "doc" THEN s[1] ELSE 0      \* "" stops the search, (None, source)
 
 \* ---- a dotted lookup `C.f` made WHILE the modules are analysed (an alias statement `a = C.f`, a base `class X(C.f)`
-\*      placed after the class statements): expandName -> Class.find -> Class.mro() with _mro still None
-\*      (model.py:707-716): "allbases" = depth-first over the bases resolved so far, duplicates and all (the code as
-\*      it is); "c3" = linearise what is known so far, depth-first only when that fails (the proposed repair).
-\*      Modelled for Source = "members" (one module, every base resolved in the first pass).
-EarlyMro(c) == IF EarlyOrder = "c3" THEN (LET m == PdMro(c) IN IF m = Bad THEN AllBases(c, {}) ELSE m)
+\*      placed right after the class statement): expandName -> Class.find -> Class.mro() with _mro still None
+\*      (model.py:707-730).  Only the bases resolved in the first pass are known then (EB).
+\*      EarlyOrder "allbases" = depth-first over them, duplicates and all (the code before commit d15584e);
+\*                 "c3"       = linearise what is known so far, depth-first only when that fails (since d15584e).
+EB(c) == BaseObjs(c, {})
+RECURSIVE PdMroE(_)
+PdMroE(c) ==
+    IF Len(EB(c)) = 0 THEN <<c>>
+    ELSE LET ps == [i \in 1..Len(EB(c)) |-> PdMroE(EB(c)[i])] IN
+         IF \E i \in 1..Len(ps) : ps[i] = Bad THEN Bad
+         ELSE LET m == PdMergeLoop(ps \o <<EB(c)>>, <<>>) IN IF m = Bad THEN Bad ELSE <<c>> \o m
+EarlyMro(c) == IF EarlyOrder = "c3" THEN (LET m == PdMroE(c) IN IF m = Bad THEN AllBases(c, {}) ELSE m)
                                      ELSE AllBases(c, {})
-PdEarlyFind(c) == IF Source = "members" THEN FirstDefining(EarlyMro(c)) ELSE 0
-\* known finding early-lookup-depth-first: the early answer is the first definition in depth-first order, not along C3
+PdEarlyFind(c) == IF Source \in {"members", "late"} THEN FirstDefining(EarlyMro(c)) ELSE 0
+\* `class X(C.f)` right after class C: a base that could not be resolved in the first pass (nothing found) is resolved
+\* again by compute_mro (model.py:583-590) when X is post-processed, i.e. after C: along C's final order
+PdEarlyBase(c) == IF PdEarlyFind(c) = 0 THEN PdFind(c) ELSE PdEarlyFind(c)
+\* some class on the way up from c has a base that is resolved only in the second pass
+LateAbove(c) == \E x \in {c} \cup Anc(c) : \E b \in Range(bases[x]) : born[b] > born[x]
+\* known finding early-lookup-depth-first (fixed by d15584e): the first definition in depth-first order, not along C3
 KF_EarlyLookupDepthFirst(c) == /\ EarlyOrder = "allbases"
                                /\ PdEarlyFind(c) # RefFind(c)
                                /\ PdEarlyFind(c) = FirstDefining(AllBases(c, {}))
+\* known finding early-lookup-before-base-resolved (open): a base on the way up is not known yet when the lookup is made
+KF_EarlyLookupBeforeBaseResolved(c) == /\ EarlyOrder = "c3"
+                                       /\ (PdEarlyFind(c) # RefFind(c) \/ PdEarlyBase(c) # RefFind(c))
+                                       /\ LateAbove(c)
 
 \* ===================================================================== behaviours
 Ident(m) == [i \in 1..m |-> i]
-InitBuild == /\ Source \in {"enum", "members"} /\ cid = 0 /\ n = 0
+InitBuild == /\ Source \in {"enum", "members", "late"} /\ cid = 0 /\ n = 0
              /\ bases = <<>> /\ born = <<>> /\ member = <<>> /\ phase = "build"
 InitGraph == /\ Source = "graph" /\ cid = 0 /\ n = MaxN
              /\ bases \in [1..MaxN -> PermSeqs(1..MaxN)]
@@ -185,9 +204,11 @@ AddClass == /\ phase = "build" /\ n < MaxN
             /\ mro' = Append(mro, <<>>) /\ warn' = Append(warn, "none")
             /\ UNCHANGED <<cid, phase, fin, k>>
 Built == /\ phase = "build" /\ n = MaxN
-         /\ IF Source = "members" THEN member' \in [1..n -> DocStates] ELSE UNCHANGED member
+         /\ IF Source \in {"members", "late"} THEN member' \in [1..n -> DocStates] ELSE UNCHANGED member
+         \* "late": one class per module, the modules analysed in any order (born = rank of the class's module)
+         /\ IF Source = "late" THEN born' \in {p \in [1..n -> 1..n] : Inj(p)} ELSE UNCHANGED born
          /\ phase' = "post"
-         /\ UNCHANGED <<cid, n, bases, born, fin, k, mro, warn>>
+         /\ UNCHANGED <<cid, n, bases, fin, k, mro, warn>>
 \* defaultPostProcess (model.py:1486-1489): classes in creation order, cls._init_mro()
 PostStep == /\ phase = "post" /\ k < n
             /\ LET c == CHOOSE x \in 1..n : born[x] = k + 1
@@ -218,10 +239,11 @@ SourcesAreOverridden == Done => \A c \in Classes : (Consistent(c) /\ Defines(c))
 DocIsInherited == Done => \A c \in Classes : (Consistent(c) /\ Defines(c)) => PdDocOwner(c) = RefDocOwner(c)
 
 \* a lookup through the class gives the same definition whenever it is made
-EarlyIsLookupAt(c) == PdEarlyFind(c) = RefFind(c)
-EarlyIsLookup == (Done /\ Source = "members") => \A c \in Classes : Consistent(c) => EarlyIsLookupAt(c)
+EarlyIsLookupAt(c) == PdEarlyFind(c) = RefFind(c) /\ PdEarlyBase(c) = RefFind(c)
+EarlyIsLookup == (Done /\ Source \in {"members", "late"}) => \A c \in Classes : Consistent(c) => EarlyIsLookupAt(c)
 \* ... checked modulo the known finding, so that TLC still reports any OTHER deviation
-EarlyIsLookupOrKF == (Done /\ Source = "members") => \A c \in Classes : Consistent(c) => (EarlyIsLookupAt(c) \/ KF_EarlyLookupDepthFirst(c))
+EarlyIsLookupOrKF == (Done /\ Source \in {"members", "late"}) => \A c \in Classes : Consistent(c) =>
+                         (EarlyIsLookupAt(c) \/ KF_EarlyLookupDepthFirst(c) \/ KF_EarlyLookupBeforeBaseResolved(c))
 
 \* ===================================================================== emission
 PerClass(F(_)) == [c \in 1..n |-> F(c)]
@@ -236,5 +258,5 @@ Emit == Done => PrintT(ToJson([cid |-> cid, n |-> n, bases |-> bases, born |-> b
                                find_ref |-> PerClass(RefFindE), find_pd |-> PerClass(PdFind),
                                src_ref |-> PerClass(RefSourcesE), src_pd |-> PerClass(PdSourcesE),
                                doc_ref |-> PerClass(RefDocE), doc_pd |-> PerClass(PdDocE),
-                               early_pd |-> PerClass(PdEarlyFind)]))
+                               early_pd |-> PerClass(PdEarlyFind), early_base_pd |-> PerClass(PdEarlyBase), late |-> PerClass(LateAbove)]))
 =============================================================================
